@@ -26,6 +26,9 @@ PROPS = {
              assumptions=["per unit, requests come either from the unit itself or from one issuer, so accepted requests are totally ordered; a request overlapping a scheduling point may be honoured at that point or the next"]),
     "C16": P(60000, 1500000, expect_reach=["c16.remote_sets_while_owner_runs", "c16.destructor_calls"],
              assumptions=["every (unit,key) pair has a single writer (the owner or one remote setter), so the expected value is unique; ABT_KEY_TABLE_SIZE is randomised in {1,...,64}"]),
+    "C17": P(60000, 1500000, expect_reach=["c17.lin_decided"],
+             assumptions=["each stream is freed / re-ranked only by the actor that created it; ABT_xstream_set_main_sched is applied to a joined stream or to the caller's own stream",
+                          "rank histories <= 24 operations, search capped at 2e6 nodes"]),
     "C19": P(60000, 1500000, expect_reach=["c19.timeouts", "c19.signal_with_certain_waiter"],
              assumptions=["deadlines are relative to the run's virtual time scale; TIMEDOUT is checked against the virtual clock, never against elapsed steps"]),
     "C01": P(50000, 1200000, assumptions=["units that create other units finish before streams are joined (a creation racing with the join of the only stream serving the target pool is the program's error)"]),
